@@ -1,0 +1,9 @@
+//go:build verif
+
+package multiterm
+
+// VerifSetTermSize overrides the detected terminal size (verification hook;
+// compiled only with -tags verif).
+func VerifSetTermSize(rows, cols int) {
+	computedRows, computedCols = rows, cols
+}
